@@ -443,6 +443,33 @@ func ruleC09(c *Ctx) {
 			pathRoot := sliceHasCall(path, func(cal *ssa.Function, _ *ssa.Call) bool { return calleeNameIs(cal, "workspace.Workspace).RootJournalPath") })
 			pathDoc := sliceHasCall(path, func(cal *ssa.Function, _ *ssa.Call) bool { return calleeNameIs(cal, "server.uriToPath") })
 			okPair := (fromWS && !fromDoc && pathRoot) || (fromDoc && !fromWS && pathDoc && !pathRoot) || (!fromWS && !fromDoc)
+			if fromWS {
+				// the workspace tree follows the open buffers; it must also serve the root journal itself: no
+				// controlling condition may require the document to differ from the workspace root
+				excl := false
+				for _, cc := range controlCondsPol(b) {
+					bo, ok := cc.Cond.(*ssa.BinOp)
+					if !ok || !((bo.Op == token.NEQ && cc.Taken) || (bo.Op == token.EQL && !cc.Taken)) {
+						continue
+					}
+					isRoot := func(v ssa.Value) bool {
+						return sliceHasCall(backSlice(v), func(cal *ssa.Function, _ *ssa.Call) bool { return calleeNameIs(cal, "workspace.Workspace).RootJournalPath") })
+					}
+					isDoc := func(v ssa.Value) bool {
+						for w := range backSlice(v) {
+							if p, ok := w.(*ssa.Parameter); ok && p.Parent() == pairFn {
+								return true
+							}
+						}
+						return false
+					}
+					if (isRoot(bo.X) && isDoc(bo.Y)) || (isRoot(bo.Y) && isDoc(bo.X)) {
+						excl = true
+					}
+				}
+				c.check(!excl, "H-PRIMARY", pname, "the workspace tree also serves the workspace root", r.Pos(),
+					"no condition on the way to this return excludes the root journal", "the workspace tree is only used when the requesting document is not the workspace root: a request made from the root is answered from files as they are on disk, ignoring unsaved edits in included files that the workspace tracks")
+			}
 			c.check(okPair, "H-PRIMARY", pname, "returned tree is paired with its own primary path", r.Pos(),
 				fmt.Sprintf("workspace tree -> root journal path, per-document tree -> document path (ws=%v doc=%v root=%v docpath=%v)", fromWS, fromDoc, pathRoot, pathDoc),
 				"a resolved tree is returned together with a path that is not the file its Primary journal was parsed from (workspace tree must go with Workspace.RootJournalPath(), the per-document tree with the document's path)")
@@ -521,6 +548,54 @@ func ruleC09(c *Ctx) {
 		})
 		c.check(okKey, "H-PRIMARY", c.P.declName(fd), "primary stored under the primary path", fd.Pos(),
 			"resolved.Primary is keyed by the primary-path parameter", "resolved.Primary is not keyed by the path that accompanies the tree")
+		// C09-TREE: whenever a tree is given, the map that is searched is built from the tree: every return of a
+		// map that does not contain the tree's files is control dependent on the tree being nil
+		if F := c.P.ssaOf(fd); F != nil {
+			var treeParam *ssa.Parameter
+			for _, p := range F.Params {
+				if typeHasSuffix(p.Type(), "include.ResolvedJournal") {
+					treeParam = p
+				}
+			}
+			nR := 0
+			for _, b := range F.Blocks {
+				for _, ins := range b.Instrs {
+					r, ok := ins.(*ssa.Return)
+					if !ok || len(r.Results) != 1 || treeParam == nil {
+						continue
+					}
+					nR++
+					// does the returned map receive the tree's files on the way here?
+					whenNil := false
+					for _, cc := range controlCondsPol(b) {
+						if bo, ok := cc.Cond.(*ssa.BinOp); ok {
+							nilCmp := (bo.X == ssa.Value(treeParam) || bo.Y == ssa.Value(treeParam))
+							if nilCmp && ((bo.Op == token.EQL && cc.Taken) || (bo.Op == token.NEQ && !cc.Taken)) {
+								whenNil = true
+							}
+						}
+					}
+					fills := false
+					for _, b2 := range F.Blocks {
+						for _, i2 := range b2.Instrs {
+							mu, ok := i2.(*ssa.MapUpdate)
+							if !ok || !backSlice(r.Results[0])[mu.Map] && mu.Map != r.Results[0] {
+								continue
+							}
+							if backSlice(mu.Value)[ssa.Value(treeParam)] && (b2.Dominates(b) || reachesBlock(b2, b)) {
+								// every path to this return passes a point from which the fill loop is entered?
+								fills = true
+							}
+						}
+					}
+					// a return that is reachable without the tree having been consulted at all
+					early := !whenNil && !blockAfterUse(F, b, treeParam)
+					c.check(whenNil || (fills && !early), "C09-TREE", c.P.declName(fd), fmt.Sprintf("return #%d covers the whole tree", nR), r.Pos(),
+						"the journals of the given tree are in the returned map (or no tree was given)", "the set of journals that is searched can be returned without the files of the given include tree (a short cut that looks at the requesting document only): references, rename and definition then depend on the file the request is made from")
+				}
+			}
+			c.census("C09-TREE", "return sites of the journal-map builder", nR, 1)
+		}
 	} else {
 		c.undecided("H-PRIMARY", "server.allJournalsWithPaths", "anchor", token.NoPos, "function not found")
 	}
@@ -1081,4 +1156,53 @@ func delegatesTo(info *types.Info, fd *ast.FuncDecl, pred func(*types.Func) bool
 	}
 	o, ok := calleeOf(info, call).(*types.Func)
 	return ok && pred(o)
+}
+
+// reachesBlock: b is reachable from a.
+func reachesBlock(a, b *ssa.BasicBlock) bool {
+	seen := map[*ssa.BasicBlock]bool{}
+	w := []*ssa.BasicBlock{a}
+	for len(w) > 0 {
+		x := w[len(w)-1]
+		w = w[:len(w)-1]
+		if x == b {
+			return true
+		}
+		if seen[x] {
+			continue
+		}
+		seen[x] = true
+		w = append(w, x.Succs...)
+	}
+	return false
+}
+
+// blockAfterUse: every path from the entry of f to block b passes an instruction that reads the parameter
+// (a comparison, a field access): the return in b is not taken before the parameter was looked at.
+func blockAfterUse(f *ssa.Function, b *ssa.BasicBlock, p *ssa.Parameter) bool {
+	uses := map[*ssa.BasicBlock]bool{}
+	if refs := p.Referrers(); refs != nil {
+		for _, r := range *refs {
+			uses[r.Block()] = true
+		}
+	}
+	if uses[b] {
+		return true
+	}
+	// reach b from the entry avoiding blocks that use p
+	seen := map[*ssa.BasicBlock]bool{}
+	w := []*ssa.BasicBlock{f.Blocks[0]}
+	for len(w) > 0 {
+		x := w[len(w)-1]
+		w = w[:len(w)-1]
+		if seen[x] || uses[x] {
+			continue
+		}
+		seen[x] = true
+		if x == b {
+			return false
+		}
+		w = append(w, x.Succs...)
+	}
+	return true
 }
